@@ -94,7 +94,7 @@ def EncHashLangSep : Prop :=
     encHash r₁ = encHash r₂ → langTagBytes r₁.lang = langTagBytes r₂.lang
 
 -- negative results (kernel-checked by evaluation)
-example : langTagBytes .objcxx = langTagBytes .objcxxHeader := rfl
+example : langTagBytes .objcxx ≠ langTagBytes .objcxxHeader := by decide     -- since fix 55dc400 (F-C02-d)
 example : langTagBytes .cuda = langTagBytes .cudaFE := rfl
 
 end CK
